@@ -270,7 +270,34 @@ func runC05(c *Ctx) {
 					}
 				}
 			}
-			if as && exported {
+			// when the exported error is assembled field by field, each field is fed from the field of the same name
+			miswired := false
+			for _, fn := range append([]*ssa.Function{db}, core.StaticReachList(db)...) {
+				if fn == nil || pkgOf(fn) == nil || pkgOf(fn).Path() != core.PkgCh {
+					continue
+				}
+				for _, b := range fn.Blocks {
+					for _, in := range b.Instrs {
+						st, ok := in.(*ssa.Store)
+						if !ok {
+							continue
+						}
+						fa, ok := st.Addr.(*ssa.FieldAddr)
+						if !ok || !core.IsNamed(fa.X.Type(), core.PkgCh, "CorruptedDataErr") {
+							continue
+						}
+						fname := fieldNameOnly(fa.X.Type(), fa.Field)
+						from := core.FieldOrigin(st.Val, 0)
+						if !strings.HasSuffix(from, "CorruptedDataErr."+fname) {
+							miswired = true
+							c.R.Bad(rule, core.FuncName(fn)+"/field-"+fname, cfg, p.Pos(st.Pos()), sprintf("the exported corruption error's %s is filled from %q, not from the reader's %s: the user no longer gets both checksums (stored and computed)", fname, from, fname))
+						}
+					}
+				}
+			}
+			if miswired {
+				// reported above
+			} else if as && exported {
 				c.R.Ok(rule, core.FuncName(db), cfg, p.Pos(db.Pos()), "errors.As -> exported *ch.CorruptedDataErr, wrapped")
 			} else {
 				c.R.Bad(rule, core.FuncName(db), cfg, p.Pos(db.Pos()), "the client does not re-export the corruption error")
